@@ -276,7 +276,8 @@ def check_loop(ctx, R="C01.loop"):
         draws = [c for c in ast.walk(lp) if isinstance(c, ast.Call) and dotted(c.func) == "random.random"]
         ifs = [s for s in lp.body if isinstance(s, ast.If)]
         good = False
-        if len(draws) == 1 and len(ifs) == 1 and len(lp.body) == 1:
+        lbody = lib.core(lp.body)
+        if len(draws) == 1 and len(ifs) == 1 and len(lbody) == 1:
             t = ifs[0].test
             if isinstance(t, ast.Compare) and len(t.ops) == 1:
                 l, op, r = unparse(t.left), t.ops[0], unparse(t.comparators[0])
@@ -291,8 +292,8 @@ def check_loop(ctx, R="C01.loop"):
                 T, F = [f"{v}.active = True"], [f"{v}.active = False"]
                 if (lt and body == T and orelse == F) or (gt and body == F and orelse == T):
                     good = True
-        elif len(draws) == 1 and len(lp.body) == 1 and isinstance(lp.body[0], ast.Assign):
-            a = lp.body[0]
+        elif len(draws) == 1 and len(lbody) == 1 and isinstance(lbody[0], ast.Assign):
+            a = lbody[0]
             if unparse(a.targets[0]) == f"{v}.active" and isinstance(a.value, ast.Compare) and len(a.value.ops) == 1:
                 l, op, r = unparse(a.value.left), a.value.ops[0], unparse(a.value.comparators[0])
                 good = (l == "random.random()" and r == f"{v}.prob" and isinstance(op, (ast.Lt, ast.LtE))) or (
